@@ -7,6 +7,9 @@ SPEC = {
         {"name": "logoutrace", "pkg": "./internal/home/", "run": "^TestVerifC12LogoutRace$",
          "harness": ["home/c12_logoutrace_test.go"], "race": True,
          "timeout_quick": 600, "timeout_thorough": 1800},
+        {"name": "limiterrace", "pkg": "./internal/home/", "run": "^TestVerifC12LimiterRace$",
+         "harness": ["home/c12_limiterrace_test.go"], "race": True,
+         "timeout_quick": 600, "timeout_thorough": 1800},
     ],
 }
 
